@@ -40,7 +40,8 @@ func RunHistory(seed uint64, r *rng.R, work string, opt apphist.Options, cfg Con
 			break
 		}
 		// scenario templates (shapes random generation reaches too rarely)
-		if r.Chance(18) {
+		quiet := s.Quiet(s.Height + 1)
+		if r.Chance(25) && !quiet {
 			if sc := s.Scenario(); sc != nil {
 				for _, bz := range sc.Deliver() {
 					o, _ := s.Deliver(bz)
@@ -64,6 +65,9 @@ func RunHistory(seed uint64, r *rng.R, work string, opt apphist.Options, cfg Con
 			s.Check(f())
 		}
 		ntx := r.Intn(opt.TxPerBlock + 1)
+		if quiet {
+			ntx = 0
+		}
 		for i := 0; i < ntx; i++ {
 			bz := s.GenTx()
 			if cfg.CheckTx && r.Chance(30) {
